@@ -682,6 +682,9 @@ impl Monitor for C04 {
             Some((_, CloseKind::Transport { local: false, .. }))
             | Some((_, CloseKind::Application { local: false, .. }))
             | Some((_, CloseKind::Closed { local: false })) => None,
+            // the victim's own application closing the connection when it is done is no
+            // rejection either: the violation went unanswered
+            Some((_, CloseKind::Application { local: true, .. })) | Some((_, CloseKind::Closed { local: true })) => None,
             other => other,
         };
         match vclosed {
